@@ -24,7 +24,7 @@ Clauses(e) ==
              F(c.ok = (IF ok THEN 1 ELSE 0), "C03", "success_" \o ToString(c.fn))
              \cup F(ok /\ c.ok = 1 => c.p = v.end, "C03", "offset_" \o ToString(c.fn))
              \cup F(ok /\ c.ok = 1 /\ c.tree # <<"big">> => TreeMatch(v.tree, c.tree, FALSE), "C03", "tree_" \o ToString(c.fn))
-             \cup F(c.tree = <<"big">> /\ ~deep => (v.ok => TreeDepth(v.tree) > 200), "INFRA", "tree_elided_but_shallow")
+             \cup F(c.tree = <<"big">> /\ ~deep => (v.ok => TreeDepth(v.tree) > 100), "INFRA", "tree_elided_but_shallow")
              \cup F(deep /\ c.ok = 1 => c.tree = <<"big">>, "INFRA", "deep_family_tree_logged")
              : i \in 1..Len(e.calls) }
      \* encoding/json: same verdict, same tree after the UTF-8 replacement rule
@@ -40,7 +40,7 @@ Clauses(e) ==
 
 TraceInit == l = 1
 TraceNext == /\ l <= Len(Trace)
-             /\ Report(l, 0, Clauses(Trace[l]))
+             /\ Report(l, 0, IF IsPanic(Trace[l]) THEN PanicFail ELSE Clauses(Trace[l]))
              /\ l' = l + 1
 TraceSpec == TraceInit /\ [][TraceNext]_l
 Finished == l = Len(Trace) + 1 => PrintT(<<"TRACE-CONSUMED", Len(Trace)>>)
